@@ -59,11 +59,7 @@ impl<T> Vec<T> {
             crate::verif_capacity!("VERIF-CAPACITY: Vec::with_capacity beyond VCAP");
         }
 
-        Self {
-            buf: RawBuf::with_cap(capacity),
-            len: 0,
-            exact: true,
-        }
+        Self::with_capacity_unchecked(capacity)
     }
 
     #[must_use]
@@ -429,11 +425,29 @@ impl<T: Clone> Clone for Vec<T> {
 }
 
 impl<T> Vec<T> {
+    #[cfg(not(feature = "fixedcap"))]
     fn with_capacity_unchecked(capacity: usize) -> Self {
         Self {
             buf: RawBuf::with_cap(capacity),
             len: 0,
             exact: true,
+        }
+    }
+
+    /// Feature `fixedcap`: every vector gets a `vcap()`-slot buffer, whatever
+    /// size was asked for (<= vcap). Used where the requested size is a symbolic
+    /// value: a symbolic-size allocation makes CBMC run out of memory. Object
+    /// bounds are then `vcap`, not the requested size.
+    #[cfg(feature = "fixedcap")]
+    fn with_capacity_unchecked(capacity: usize) -> Self {
+        if capacity > crate::verif::vcap() {
+            crate::verif_capacity!("VERIF-CAPACITY: Vec of more than VCAP elements (fixedcap)");
+        }
+
+        Self {
+            buf: RawBuf::with_cap(crate::verif::vcap()),
+            len: 0,
+            exact: false,
         }
     }
 }
